@@ -15,7 +15,7 @@ from .facts import Program, FactsError
 
 VERIF = extract.VERIF
 KNOWN = os.path.join(VERIF, "KNOWN_FINDINGS.txt")
-EVID = os.path.join(VERIF, "evidence")
+EVID = os.environ.get("VERIF_EVIDENCE_DIR") or os.path.join(VERIF, "evidence")   # developer tools redirect it for runs against a scratch worktree
 
 PROPS = ["C%02d" % i for i in range(1, 21)]
 
